@@ -156,6 +156,9 @@ def diagnose(expected, got, dec):
         return None
     labels = []
     e, g = expected, got
+    if e.startswith(BOM) and g.startswith(BOM + BOM):
+        labels.append("bom-doubled")
+        g = g[len(BOM):]
     if e.startswith(BOM) and not g.startswith(BOM):
         labels.append("bom-lost")
         e = e[len(BOM):]
